@@ -243,3 +243,68 @@ def as_ternary(cx, f, node):
             return "(%s ? %s : %s)" % (only1[0], cx.canon(v1), cx.canon(v2))
         return cx.canon(node)
     return cx.canon(node)
+
+
+PURE_MATH = {"sqrt", "log", "exp", "pow", "fabs", "ceil", "floor", "ldexp", "log1p", "expm1", "cbrt", "fmin", "fmax"}
+
+
+def parameter_memo(m, g, writer_keys):
+    """Is the static-storage variable `g` a parameter memo: every value stored into it (or into one of its members) is
+    computed from the writing function's parameters, constants, pure math and other members of the same memo / other
+    memos of the same function - never from generator output or from the member's own previous value.
+    Returns (bool, reason)."""
+    from ..astutil import strip, kids, walk, callee_ref
+    from .. import inv
+    from ..vals import FuncCtx
+    for fk in writer_keys:
+        f = m.funcs[fk]
+        cx = FuncCtx(m, f)
+        pids = {p["id"] for p in f.params}
+
+        def root_of(lv):
+            n = strip(lv, casts=True)
+            path = []
+            while n["kind"] in ("MemberExpr", "ArraySubscriptExpr") and not n.get("isArrow") and kids(n):
+                path.append(n.get("name"))
+                n = strip(kids(n)[0], casts=True)
+            return n, tuple(reversed(path))
+
+        def derived(n_, lhs_path, depth=0):
+            """None if fine, else the reason"""
+            for x in walk(n_):
+                if x["kind"] == "CallExpr":
+                    nm = callee_ref(x)
+                    if nm not in PURE_MATH:
+                        return "value computed by calling %s in %s" % (nm, f.name)
+                if x["kind"] == "DeclRefExpr" and x.get("ref", {}).get("kind") in ("VarDecl", "ParmVarDecl"):
+                    if x["ref"]["id"] in pids:
+                        continue
+                    gk2 = m.global_key(f.unit, f, x["ref"])
+                    if gk2 is None:
+                        d = cx.single_def(x["ref"]["id"])
+                        if d is not None and depth < 4:
+                            why = derived(d, lhs_path, depth + 1)
+                            if why:
+                                return why
+                            continue
+                        return "depends on local '%s' in %s" % (x["ref"]["name"], f.name)
+                    if gk2 == g:
+                        # another member of the same memo is fine; the member itself is not
+                        par = [a for a in inv.enclosing_chain(f, x) if a["kind"] == "MemberExpr"]
+                        sel = tuple(a.get("name") for a in reversed(par) if any(y is x for y in walk(a)))
+                        if not lhs_path or not sel or sel[:len(lhs_path)] == lhs_path:
+                            return "depends on its own previous value in %s" % f.name
+                        continue
+                    if m.globals[gk2].local_to != f.key and not m.globals[gk2].const:
+                        return "depends on '%s'" % gk2
+            return None
+        for lhs, rhs, kind, node in inv.stores(f):
+            root, path = root_of(lhs)
+            if not (root["kind"] == "DeclRefExpr" and m.global_key(f.unit, f, root.get("ref", {})) == g):
+                continue
+            if kind != "=" or rhs is None:
+                return False, "updated in place (%s) in %s" % (kind, f.name)
+            why = derived(rhs, path)
+            if why:
+                return False, why
+    return True, ""
